@@ -16,6 +16,7 @@ import (
 	"path/filepath"
 	"sort"
 	"strconv"
+	"sync"
 	"testing"
 
 	"github.com/rpcpool/yellowstone-faithful/deprecated/compactindex"
@@ -53,6 +54,8 @@ type c04Obs struct {
 	Detail  string      `json:"detail"`
 	Sampled bool        `json:"sampled"`
 	NKeys   int         `json:"nkeys"`
+	AvgLoad int         `json:"avgload"`  // inserts per bucket given the declared item count
+	MustErr bool        `json:"mustfail"` // the case class is one the builder has to refuse
 }
 
 type c04kv struct {
@@ -140,6 +143,8 @@ func c04lookup(format string, path string, kvs []c04kv) (found []bool, detail st
 	}
 	defer f.Close()
 	found = make([]bool, len(kvs))
+	detail2 := ""
+	_ = detail2
 	if p := vt.Guard(func() {
 		switch format {
 		case "sized":
@@ -148,9 +153,45 @@ func c04lookup(format string, path string, kvs []c04kv) (found []bool, detail st
 				detail = "Open: " + err.Error()
 				return
 			}
+			// the value a Lookup returned must stay that key's value while later lookups run (results are compared
+			// after the whole pass), also under concurrent lookups on the same handle
+			gots := make([][]byte, len(kvs))
+			errs := make([]error, len(kvs))
 			for i, kv := range kvs {
-				got, err := db.Lookup(kv.key)
-				found[i] = err == nil && bytes.Equal(got, kv.val)
+				gots[i], errs[i] = db.Lookup(kv.key)
+			}
+			for i, kv := range kvs {
+				found[i] = errs[i] == nil && bytes.Equal(gots[i], kv.val)
+			}
+			if len(kvs) >= 2 && len(kvs) <= 3000 {
+				var wg sync.WaitGroup
+				bad := make([]bool, 4)
+				for w := 0; w < 4; w++ {
+					wg.Add(1)
+					go func(w int) {
+						defer wg.Done()
+						defer func() {
+							if recover() != nil {
+								bad[w] = true
+							}
+						}()
+						for r := 0; r < 2; r++ {
+							for i := w; i < len(kvs); i += 2 {
+								got, err := db.Lookup(kvs[i].key)
+								if err != nil || !bytes.Equal(got, kvs[i].val) {
+									bad[w] = true
+								}
+							}
+						}
+					}(w)
+				}
+				wg.Wait()
+				for w := range bad {
+					if bad[w] {
+						found[w%len(kvs)] = false
+						detail2 = "concurrent lookups on one handle disagree with the inserted values"
+					}
+				}
 			}
 		case "legacy8":
 			db, err := compactindex.Open(f)
@@ -264,6 +305,13 @@ func TestVerifC04(t *testing.T) {
 					return 65535
 				}
 				return 20
+			case "lengths":
+				// the property's key-length quantifier (0..65535): buffer-size boundaries of the temp-file readers included
+				ls := []int{0, 1, 2, 255, 256, 1000, 4095, 4096, 4097, 5000, 8192, 20000, 65534, 65535}
+				if i >= len(ls) {
+					return 3 + i // further keys: short distinct lengths (one empty key only)
+				}
+				return ls[i]
 			default:
 				return 1 + rng.Intn(80)
 			}
@@ -351,6 +399,18 @@ func TestVerifC04(t *testing.T) {
 			declared = 0
 		}
 		o := c04Obs{Case: ci + 1, Class: c, Vsize: vsize, Found: []bool{}, Layout: []c04Bucket{}, NKeys: len(kvs)}
+		nb := (int(declared) + 9999) / 10000
+		if nb < 1 {
+			nb = 1
+		}
+		o.AvgLoad = (len(kvs) + nb - 1) / nb
+		if c.Special == "one-bucket" {
+			o.AvgLoad = len(kvs)
+		}
+		switch c.Special {
+		case "duplicate", "key-65536", "long-value", "vsize-0", "vsize-253", "vsize-255", "vsize-256", "declared-0":
+			o.MustErr = true
+		}
 		p1, p2 := filepath.Join(dir, "a.index"), filepath.Join(dir, "b.index")
 		o.Outcome, o.Detail = c04build(c.Fmt, vsize, declared, kvs, p1)
 		if o.Outcome == "ok" {
